@@ -178,13 +178,24 @@ def rule_layout(r):
         envn = dict(C)
         envn["info.parameters.npars"] = npars
         envn["len(info.parameters.magnetism_index)"] = nmag
+        envn["info.parameters.nmagnetic"] = nmag
         for st in pf.walk_stmts(nx):
             if isinstance(st, ast.AugAssign) and isinstance(st.op, ast.Add) and pf.unparse(st.target) in inc:
                 parent = mod.parents.get(st)
                 if isinstance(parent, ast.If) and st in parent.body:
                     if not pf_truth(parent.test, facts):
                         continue
-                inc[pf.unparse(st.target)] += affine(st.value, envn, facts)
+                try:
+                    try:
+                        val = affine(st.value, envn, facts)
+                    except AnalysisError:
+                        val = affine(pf.inline_locals(nx, st.value), envn, facts)
+                    inc[pf.unparse(st.target)] += val
+                except AnalysisError as exc:
+                    r.violation(F, "_MixtureParts.__next__", "%s (operation %r)" % (pf.unparse(st), op), st.lineno,
+                                "the advance is not a function of the part's own table sizes (npars, number of magnetic SLD "
+                                "slots) only - %s; parts after this one read another component's slots" % exc)
+                    inc[pf.unparse(st.target)] += sp.Symbol("unresolved")
         for need in ("self.par_index", "self.mag_index"):
             if need not in start:
                 raise AnalysisError("_MixtureParts.__iter__ does not initialise %s" % need)
